@@ -509,9 +509,9 @@ fn c37_reserve_never_increases_a_balance_2_tokens_w8() {
     reserve_step(8, 2);
 }
 
-//@ prop=C37 tier=thorough kind=hold
+//@ prop=C37 tier=experimental kind=hold
 //@ enc=GtBank::reserve_balances (via verif_hooks), TokenBalances::entries_mut
-//@ bound=banks with exactly 1 token(s), balances < 2^16, numerator and denominator < 2^16 (any order, incl. 0); every entry read back; unwind 34
+//@ bound=banks with exactly 1 token(s), balances < 2^16, numerator and denominator < 2^16 (any order, incl. 0); every entry read back; unwind 34. Does not finish (> 3000 s: 16-bit symbolic division against the reference products)
 //@ stubs=<u128 as MulDiv>::checked_mul_div (ruint U256; its division by a symbolic divisor does not finish in symbolic execution) is replaced by its specification floor(x*n/d) computed in u64 (defined for operands < 2^32; exactness of the real routine is C01); alloc::fmt::format, sol_log, CoreError::name, Display/to_string for CoreError / u64 / u128 do nothing
 //@ args=--default-unwind,34
 #[kani::proof]
@@ -528,9 +528,9 @@ fn c37_reserve_never_increases_a_balance_1_token_w16() {
     reserve_step(16, 1);
 }
 
-//@ prop=C37 tier=thorough kind=hold
+//@ prop=C37 tier=experimental kind=hold
 //@ enc=GtBank::reserve_balances (via verif_hooks), TokenBalances::entries_mut
-//@ bound=banks with exactly 2 token(s), balances < 2^16, numerator and denominator < 2^16 (any order, incl. 0); every entry read back; unwind 34
+//@ bound=banks with exactly 2 token(s), balances < 2^16, numerator and denominator < 2^16 (any order, incl. 0); every entry read back; unwind 34. Does not finish (> 3000 s)
 //@ stubs=<u128 as MulDiv>::checked_mul_div (ruint U256; its division by a symbolic divisor does not finish in symbolic execution) is replaced by its specification floor(x*n/d) computed in u64 (defined for operands < 2^32; exactness of the real routine is C01); alloc::fmt::format, sol_log, CoreError::name, Display/to_string for CoreError / u64 / u128 do nothing
 //@ args=--default-unwind,34
 #[kani::proof]
